@@ -17,6 +17,10 @@ Op descriptors (JSON-able lists), the unit of generation and replay:
   ["delb", bid]                                             mol.del_bond(<bond object bid>)
   ["rmsub", ref, ref, label|None]                           mol.remove_substituent(ref, ref, ap_label=..)
   ["addh", [atom ids] | None]                               mol.add_implicit_hydrogens(*atoms)
+  ["newbonds", [[end, end], ...], [i, j, ...], "many"|"extend", None|"other"]
+                                                            new Bond objects b_k = Bond(end, end) (parent None, or first appended to ANOTHER molecule),
+                                                            then mol.append_bonds(b_i, b_j, …) | mol.extend_bonds([b_i, b_j, …]) — the index list may
+                                                            name an object twice or three times, adjacent or not
   ["rebond", [bids], "one"|"many"|"extend"]                 mol.append_bond(b) | mol.append_bonds(*bs) | mol.extend_bonds(bs) with bond OBJECTS that exist
                                                             already (stale handles: bonds deleted earlier; also bonds still in the molecule)
   ["mkview", [refs], "sub"|"cls"|"heavy"]                   mol.substructure(refs) | Substructure(mol, refs) | mol.heavy   (a view that is KEPT)
@@ -133,10 +137,12 @@ class Runner:
         return str(self.label_codes[l])
 
     def _reg_atom(self, a, aid: str):
+        self.keep.append(a)
         self.atom_ids[id(a)] = aid
         self.atom_objs[aid] = a
 
     def _reg_bond(self, b, bid: int):
+        self.keep.append(b)
         self.bond_ids[id(b)] = bid
         self.bond_objs[bid] = b
 
@@ -332,6 +338,36 @@ class Runner:
                                     hs.append(f"{self.atom_ids.get(id(partner), 'e999999')}:{cc}")
                             self.next += 2 * len(new_atoms)
                             token = "addh " + (",".join(hs) or "-")
+                    elif kind == "newbonds":
+                        _, ends, pattern, how, own = op
+                        accepted = len(set(pattern)) == len(pattern)   # the model's rule: an object named twice -> whole call refused
+                        objs = []
+                        for k, (ex, ey) in enumerate(ends):
+                            x, _ = self._end(ex)
+                            y, _ = self._end(ey)
+                            b = ml.Bond(x, y)
+                            self.keep.append(b)
+                            if accepted:
+                                self._reg_bond(b, nxt + k)   # only an accepted call consumes the serial numbers
+                            objs.append(b)
+                        token = "rebonds " + (",".join(
+                            f"{nxt + i}+{self.spec_tok(objs[i].a1)}+{self.spec_tok(objs[i].a2)}" for i in pattern) or "-")
+                        if accepted:
+                            self.next += len(ends)
+                        if own == "other":
+                            other = self.cls()
+                            for b in objs:
+                                other.append_bond(b)       # the bonds (and their ends, all free atoms) now belong to another molecule
+                            self.keep.append(other)
+                        for i in pattern:
+                            for z in (objs[i].a1, objs[i].a2):
+                                if not any(z is a for a in atoms_before) and not any(z is a for a in adopted):
+                                    adopted.append(z)
+                        call = [objs[i] for i in pattern]
+                        if how == "many":
+                            m.append_bonds(*call)
+                        else:
+                            m.extend_bonds(call)
                     elif kind == "rebond":
                         bids, how = op[1], op[2]
                         bs = [self.bond_objs[b] for b in bids]
@@ -545,6 +581,9 @@ class Runner:
             for a in atoms_before:
                 if not any(a is x for x in atoms):
                     self.given.pop(id(a), None)
+        if opn in ("newbonds", "rebond") and out == "err":
+            if len(bonds) != len(bonds_before) or any(x is not y for x, y in zip(bonds, bonds_before)) or len(atoms) != len(atoms_before):
+                v.append(("C05:refused-append-changed-molecule", f"{opn} raised but changed the molecule"))
         if opn in ("con", "bond", "bonds") and out == "ok":
             if bonds[: len(bonds_before)] != bonds_before and any(x is not y for x, y in zip(bonds_before, bonds)):
                 v.append(("C05:bond-list-disturbed", f"{opn} changed bonds that already existed"))
